@@ -32,7 +32,7 @@ Definition sh_fetch_file (b : path) (name : list N) : prog (outcome (resval B)) 
   | RErr _ => Ret IOErr
   | _ => Do (CRead p) (fun r =>
          match r with
-         | RData d => Do (CClose p) (fun _ => Ret (Ok (VData d)))
+         | RData d => Do (CClose p) (fun r => match r with RErr _ => Ret IOErr | _ => Ret (Ok (VData d)) end)
          | _ => Do (CClose p) (fun _ => Ret IOErr)
          end)
   end).
